@@ -1,5 +1,5 @@
 (* C09 -- small linear-algebra vocabulary shared by the GENERATED Miller
-   kernels (coq/Gen/C09Miller.v) and the hand-written model (Model/C09.v).
+   kernels (coq/Gen/C09Miller.v) and the hand-written model (Model/C09Model.v).
    Executable definitions only, polymorphic in [Ops T]; no proofs here.
 
    Conventions follow orix/diffpy: vectors are ROW vectors, the structure
@@ -82,6 +82,9 @@ Definition mtr (m : mat3 T) : mat3 T := (mcol m 0, mcol m 1, mcol m 2).
 (* row vector times matrix:  numpy.matmul(v, M) = numpy.dot(v, M)  *)
 Definition vmat (v : vec3 T) (m : mat3 T) : vec3 T :=
   (vdot v (mcol m 0), vdot v (mcol m 1), vdot v (mcol m 2)).
+(* np.matmul(v, M), or np.copy(v) when there is no matrix *)
+Definition apply_matrix (M : option (mat3 T)) (v : vec3 T) : vec3 T :=
+  match M with None => v | Some m => vmat v m end.
 Definition mmul (m n : mat3 T) : mat3 T :=
   let '(r0, r1, r2) := m in (vmat r0 n, vmat r1 n, vmat r2 n).
 Definition mid : mat3 T := ((one, zero, zero), (zero, one, zero), (zero, zero, one)).
